@@ -31,7 +31,7 @@ pub fn exercise(input: &str, ext_bits: u32) -> Vec<(String, String)> {
         g!(tag("report.write"), { for color in [false, true] { let mut buf = Vec::new(); let _ = res.report().write("r.cook", input, color, &mut buf); } });
         let Some(recipe) = res.output() else { continue };
         let conv = parser.converter();
-        g!(tag("metadata accessors"), { let m = &recipe.metadata; let _ = (m.title(), m.description(), m.tags(), m.author(), m.source(), m.time(conv), m.servings(), m.locale()); let _ = m.map_filtered().count(); });
+        g!(tag("metadata accessors"), { let m = &recipe.metadata; let _ = (m.title(), m.description(), m.tags(), m.author(), m.source(), m.time(conv).map(|t| t.total()), m.servings(), m.locale()); let _ = m.map_filtered().count(); });
         g!(tag("serde_json(scalable)"), serde_json::to_string(recipe).map(|s| s.len()).unwrap_or(0));
         let mut scaled_all = Vec::new();
         if let Some(Some(s)) = g!(tag("default_scale"), parser.parse(input).into_output().map(|r| r.default_scale())) { scaled_all.push(s); }
@@ -59,6 +59,10 @@ fn stress(rng: &mut Rng, thorough: bool) -> Vec<String> {
     v.push(format!(">> time: {}h", "9".repeat(30)));
     v.push(format!("---\nservings: {}\ntime: {}\n---\n", "9".repeat(30), "1e999"));
     v.push(format!("Add {} cups", "9".repeat(400)));
+    v.push("---\ntime:\n  prep: 4294967295\n  cook: 1\n---\n".to_string());
+    v.push(">> prep time: 4294967295\n>> cook time: 4294967295\n".to_string());
+    v.push(">> time: 71582789h\n".to_string());
+    v.push("---\nservings: [4294967295, 4294967296]\ntime: 71582788h59m\n---\n".to_string());
     for _ in 0..4 { let mut s = String::new(); for _ in 0..(n / 8) { s.push_str(gen::ALPHABET[rng.below(gen::ALPHABET.len())]); } v.push(s); }
     v
 }
